@@ -361,7 +361,7 @@ BYVAL = "val"
 BYREF = "ref"
 
 
-def check_impl_method(F, fn, adt_path, fam, mode, rule, rows, method_sem=None, self_local=1, must_paths=True):
+def check_impl_method(F, fn, adt_path, fam, mode, rule, rows, method_sem=None, self_local=1, must_paths=True, path_ok_blocks=None):
     """obligations for one impl method on ADT adt_path.
 
     rows: dict (fn path, variant, field) -> reason  (reviewed exceptions)
@@ -395,7 +395,8 @@ def check_impl_method(F, fn, adt_path, fam, mode, rule, rows, method_sem=None, s
             else:
                 problems.append("field `%s` of `%s::%s` is read but never passed to a call" % (fld, adt_path.split("::")[-1], var))
         if visited and method_sem != "is_constant" and must_paths:
-            ln = skipping_path(fn, adt_path, discr_of.get(var) if adt["is_enum"] else None, fl["read_blocks"], self_local)
+            extra_ok = path_ok_blocks(fn) if path_ok_blocks else set()
+            ln = skipping_path(fn, adt_path, discr_of.get(var) if adt["is_enum"] else None, set(fl["read_blocks"]) | extra_ok, self_local)
             if ln is not None:
                 problems.append("there is a path to a successful return (line %s) on which field `%s` of `%s::%s` is never looked at: children in it are skipped there" % (
                     ln, fld, adt_path.split("::")[-1], var))
